@@ -53,6 +53,12 @@ func propC09(t *rapid.T) {
 		sc.Config.MaxMsg = 1 << 20
 		if rapid.Bool().Draw(t, "fault_on_request") {
 			sc.Client.Fault = genFault(t, requestFaults)
+			if formEnveloped(sc.Client.Form) && rapid.IntRange(0, 3).Draw(t, "duplex_backend") == 0 {
+				// a streaming handler that has already sent (some of) its answer when the request turns out
+				// to be faulty, and keeps answering per script
+				sc.Backend.ReadAfterWrites = rapid.IntRange(1, 3).Draw(t, "read_after_writes")
+				sc.Backend.WriteChunk = rapid.SampledFrom([]int{0, 0, 7, 40}).Draw(t, "duplex_write_chunk")
+			}
 		} else {
 			sc.Backend.Fault = genFault(t, responseFaults)
 		}
@@ -369,8 +375,24 @@ func checkC09(sc *Scenario) *CheckResult {
 				return res
 			}
 		}
-		if clientSuccess(cv) {
+		if clientSuccess(cv) && sc.Backend.ReadAfterWrites > 0 {
+			// The duplex handler of this case answers per script even though its Read failed. Faults are
+			// reported to the handler through Read, whose business it is to fail the RPC (a compliant one
+			// does, and then the outcome is asserted); a handler that does not, gets its answer relayed.
+			// What is asserted for it is the shape of the response: one end, nothing after it.
+			res.class("duplex_handler_ignored_read_error")
+		} else if clientSuccess(cv) {
 			res.violate("fault_became_success", sig, "request fault %+v (%s) but the client observed OK; backend saw %d messages, read error %q", *f, why, lenMsgs(view), readErr(view))
+		}
+		if sc.Backend.ReadAfterWrites > 0 && formEnveloped(c.Form) && cv.Incomplete != "" {
+			// The duplex handler was in the middle of a frame (already forwarded on a streaming path) when
+			// the request fault ended the RPC: same rule as for a response cut inside a payload (2.1) -
+			// not OK, terminated, and what follows the truncated payload is a well-formed end.
+			if clientSuccess(cv) {
+				res.violate("fault_became_success", sig, "request fault %+v (%s) ended the RPC inside a response frame, yet the client observed OK", *f, why)
+			}
+			streamingCutEnd(res, sig, c, out, f)
+			return res
 		}
 		for _, p := range framingProblems(cv) {
 			res.violate("malformed_error_response", sig+":response", "error response to request fault %+v is not well formed: %s", *f, p)
@@ -432,20 +454,7 @@ func checkC09(sc *Scenario) *CheckResult {
 		(f.Kind == FaultCut || f.Kind == FaultLenPlus || f.Kind == FaultCLPlus || f.Kind == FaultCLMinus || f.Kind == FaultLenMinus || f.Kind == FaultNoStatus || f.Kind == FaultBitFlip || f.Kind == FaultReplace || f.Kind == FaultSplice)
 	if streamingCut {
 		// a frame header was already forwarded: require a non-OK strict parse and a well-formed end appended
-		switch c.Form {
-		case FormGRPC:
-			_, e, ps := parseGRPCStatus(out.Trailers)
-			if e == nil || len(ps) > 0 {
-				if inHead, he, hp := parseGRPCStatus(out.Rec.Head); !inHead || he == nil || len(hp) > 0 {
-					res.violate("malformed_error_response", sig+":response", "after response fault %+v the gRPC client has no single non-OK status (trailers %s)", *f, headerString(out.Trailers))
-				}
-			}
-		default:
-			if !tailHasWellFormedEnd(c.Form, out.Rec.Body.Bytes()) {
-				res.violate("malformed_error_response", sig+":response", "after response fault %+v no well-formed end follows the truncated payload", *f)
-			}
-		}
-		res.class("streaming_cut")
+		streamingCutEnd(res, sig, c, out, f)
 		return res
 	}
 	// what the client got as complete messages must be a prefix of the valid prefix
@@ -555,4 +564,24 @@ func requestFailed(view *BackendView, out *Outcome) bool {
 		}
 	}
 	return false
+}
+
+
+// streamingCutEnd: after a payload that was cut on a streaming path the bytes (or trailers) that
+// follow must be a well-formed, single, non-OK end for the client's protocol.
+func streamingCutEnd(res *CheckResult, sig string, c *Client, out *Outcome, f *Fault) {
+	switch c.Form {
+	case FormGRPC:
+		_, e, ps := parseGRPCStatus(out.Trailers)
+		if e == nil || len(ps) > 0 {
+			if inHead, he, hp := parseGRPCStatus(out.Rec.Head); !inHead || he == nil || len(hp) > 0 {
+				res.violate("malformed_error_response", sig+":response", "after fault %+v the gRPC client has no single non-OK status (trailers %s)", *f, headerString(out.Trailers))
+			}
+		}
+	default:
+		if !tailHasWellFormedEnd(c.Form, out.Rec.Body.Bytes()) {
+			res.violate("malformed_error_response", sig+":response", "after fault %+v no well-formed end follows the truncated payload", *f)
+		}
+	}
+	res.class("streaming_cut")
 }
